@@ -54,6 +54,10 @@ fn main() {
                 },
                 Profile { steps: 70, comps: vec!["A"], marks: false, events: true, sess: profile == "events", ..Default::default() },
             ),
+            "rel" => (
+                Cfg { ents: three(), clients: clients(2), max_size: vec![1200; 2], rel: true, ..Default::default() },
+                Profile { steps: 60, comps: vec!["A"], rel: true, marks: false, ..Default::default() },
+            ),
             "prespawn" => (
                 Cfg { ents: three(), clients: clients(2), max_size: vec![1200; 2], ..Default::default() },
                 Profile { steps: 70, comps: vec!["A", "B"], pre: true, ..Default::default() },
